@@ -43,27 +43,22 @@ Section FrameProofs.
       match pb_dec name payload with None => Err ErrPb | Some m => Ok (name, m) end.
   Proof.
     intros Hsz. unfold Model.unmarshal.
-    assert (Hl : blen (frame name payload ++ extra) = 8 + blen name + blen payload + blen extra)
-      by (rewrite blen_app, blen_frame; lia).
-    rewrite ltb_false by lia.
-    unfold frame. rewrite <- !app_assoc.
-    rewrite rd32_at_0 by lia.
-    fold (frame name payload). rewrite app_assoc in Hl. 
-    assert (Hl' : blen (be32 (4 + 4 + blen name + blen payload) ++ be32 (blen name) ++ name ++ payload ++ extra)
-                  = 8 + blen name + blen payload + blen extra).
-    { rewrite !blen_app, !blen_be32. lia. }
-    rewrite Hl'. rewrite (ltb_false _ (4 + 4 + blen name + blen payload)) by lia.
-    rewrite (ltb_false (4 + 4 + blen name + blen payload) 8) by lia. cbn [orb].
-    rewrite (rd32_at_app (be32 (4 + 4 + blen name + blen payload)) (blen name) _ 4) by (rewrite ?blen_be32; lia).
-    rewrite ltb_false by lia.
-    assert (E1 : slice 8 (8 + blen name)
-              (be32 (4 + 4 + blen name + blen payload) ++ be32 (blen name) ++ name ++ payload ++ extra) = Some name).
-    { rewrite (app_assoc (be32 _) (be32 _)). apply slice_at; rewrite ?blen_app, ?blen_be32; lia. }
+    set (T := 4 + 4 + blen name + blen payload).
+    unfold frame. fold T. rewrite <- !app_assoc.
+    set (data := be32 T ++ be32 (blen name) ++ name ++ payload ++ extra).
+    assert (Hl : blen data = T + blen extra) by (unfold data, T; rewrite !blen_app, !blen_be32; lia).
+    rewrite Hl. rewrite ltb_false by (unfold T; lia).
+    assert (R0 : rd32_at 0 data = Some T) by (unfold data; apply rd32_at_0; unfold T; lia).
+    rewrite R0. rewrite (ltb_false _ T) by lia. rewrite (ltb_false T 8) by (unfold T; lia). cbn [orb].
+    assert (R4 : rd32_at 4 data = Some (blen name)).
+    { unfold data. apply rd32_at_app; rewrite ?blen_be32; lia. }
+    rewrite R4. rewrite ltb_false by (unfold T; lia).
+    assert (E1 : slice 8 (8 + blen name) data = Some name).
+    { unfold data. rewrite (app_assoc (be32 T) (be32 (blen name))). apply slice_at; rewrite ?blen_app, ?blen_be32; lia. }
     rewrite E1. destruct (known name); cbn [negb]; [|reflexivity].
-    assert (E2 : slice (8 + blen name) (4 + 4 + blen name + blen payload)
-              (be32 (4 + 4 + blen name + blen payload) ++ be32 (blen name) ++ name ++ payload ++ extra) = Some payload).
-    { rewrite (app_assoc (be32 _) (be32 _)). rewrite (app_assoc (be32 _ ++ be32 _) name).
-      apply slice_at; rewrite ?blen_app, ?blen_be32; lia. }
+    assert (E2 : slice (8 + blen name) T data = Some payload).
+    { unfold data. rewrite (app_assoc (be32 T) (be32 (blen name))). rewrite (app_assoc (be32 T ++ be32 (blen name)) name).
+      apply slice_at; rewrite ?blen_app, ?blen_be32; unfold T; lia. }
     rewrite E2. reflexivity.
   Qed.
 
